@@ -1167,6 +1167,8 @@ pub enum PAct {
     Umount { path: usize },
     Init(usize),
     Destroy,
+    /// n mount+umount cycles at /z: moves the index allocator (a wrapping u8 cursor) without changing the namespace
+    Cycle(usize),
 }
 
 const CAPS: [u64; 5] = [
@@ -1318,6 +1320,14 @@ fn c19_replay(rpr: bool, global: Option<M>, seq: &[PAct], cl: &mut Client) -> (A
             PAct::Destroy => {
                 let _ = cl.destroy(&srv);
             }
+            PAct::Cycle(n) => {
+                for _ in 0..*n {
+                    if orig.mount(Box::new(Backend { inst: 1_000_000, root: 7, log: log.clone() }), "/z").is_err() {
+                        break;
+                    }
+                    let _ = orig.umount("/z");
+                }
+            }
         }
     }
     log.lock().unwrap().clear();
@@ -1363,6 +1373,14 @@ fn c19_seq(rep: &mut Report, cl: &mut Client, rpr: bool, global: Option<M>, seq:
             }
             PAct::Destroy => {
                 let _ = cl.destroy(&srv);
+            }
+            PAct::Cycle(n) => {
+                for _ in 0..*n {
+                    if orig.mount(Box::new(Backend { inst: 1_000_000, root: 7, log: log.clone() }), "/z").is_err() {
+                        break;
+                    }
+                    let _ = orig.umount("/z");
+                }
             }
         }
         log.lock().unwrap().clear();
@@ -1534,6 +1552,10 @@ pub fn c19(args: &Args) -> Report {
         alphabet.push(PAct::Init(i));
     }
     alphabet.push(PAct::Destroy);
+    // the index allocator is a wrapping cursor: histories in which it has passed, or wrapped below, live indices
+    for n in [200usize, 54, 254] {
+        alphabet.push(PAct::Cycle(n));
+    }
     let mut cl = Client::new();
     cl.cap = 1 << 17;
     let mut idx = 0u64;
@@ -1544,6 +1566,9 @@ pub fn c19(args: &Args) -> Report {
             return;
         }
         for a in alphabet {
+            if matches!(a, PAct::Cycle(_)) && seq.iter().filter(|x| matches!(x, PAct::Cycle(_))).count() >= 2 {
+                continue;
+            }
             seq.push(*a);
             rec(rep, cl, rpr, g, v1, seq, alphabet, depth);
             seq.pop();
